@@ -7,10 +7,13 @@
       `ok := default`, `err := m`, value `m` (the text is the implementation's `error.to_string()`,
       carried by the model as an opaque token taken from the recorded list `errs`).
   (c) the stored default belongs to `ok`'s reported type — stated with the Kind model in
-      VrlProofs/Props/C19 (`default_mem_kind`); listed as partial until that model lands.
+      `default_mem_reported` below (over the C19 Kind model); the oracle `o.c08.default`
+      evaluates `Lang.defaultSpec` on the real compiler's kind for `ok`.
 -/
 import VrlProofs.Props.C06
 import VrlProofs.Lemmas.Vars
+import VrlProofs.Props.C19
+import VrlModel.Lang.Default
 
 namespace C08
 open Lang
@@ -54,5 +57,31 @@ example :
     (run exProg exS).2.getVar "x" = some (.bool false) ∧
     (run exProg exS).2.getVar "err" = some (.bytes [69]) := by
   decide
+
+/-! ### (c) the stored default (`DefaultValue::default_value`, model `Lang.defaultValue`) -/
+
+/-- the nine possible defaults -/
+theorem defaultValue_cases (k : Kind) :
+    defaultValue k = .bytes [] ∨ defaultValue k = .int 0 ∨ defaultValue k = .float 0 ∨
+    defaultValue k = .bool false ∨ defaultValue k = .ts 0 ∨ defaultValue k = .regex [] ∨
+    defaultValue k = .arr .nil ∨ defaultValue k = .obj .nil ∨ defaultValue k = .null := by
+  unfold defaultValue
+  repeat' split
+  all_goals simp
+
+/-- **C08 (c)**: the default stored in `ok` when `e` fails belongs to the type the compiler reports
+    for `ok`, which is `e`'s kind united with the kind of the default (`assignment.rs`,
+    `expr_result.union(TypeDef::from(default.kind()))`) — for every kind `k` of `e`. -/
+theorem default_mem_reported (k : Kind) (sk : k.SortedK = true) (ik : k.hasNonAnyInf = false) :
+    Spec.mem (defaultValue k) (k.union (defaultValue k).kindOf) = true := by
+  rcases defaultValue_cases k with h | h | h | h | h | h | h | h | h <;> rw [h] <;>
+    exact C19.mem_union_right _ k _ sk (by decide) ik (by decide) (C19.mem_kindOf _ (by decide))
+
+/-- an exact kind keeps its default without the union: the default of `bytes` is a string, … -/
+theorem default_mem_exact_bytes (k : Kind) (h : k.isBytes = true) : defaultValue k = .bytes [] := by
+  simp [defaultValue, h]
+
+example : defaultValue Kind.bytes = .bytes [] ∧ defaultValue Kind.integer = .int 0 ∧
+    defaultValue (Kind.bytes.union Kind.integer) = .null := by decide
 
 end C08
